@@ -89,6 +89,8 @@ def parse_log(out):
                 ev.append(("EXIT", int(f[1]), int(f[2]), float(f[3])))
             elif k == "REAP":
                 ev.append(("REAP", int(f[1]), float(f[2])))
+            elif k == "JOBCTL":
+                ev.append(("JOBCTL", int(f[1]), float(f[2]), f[3]))
             elif k == "REQ":
                 ev.append(("REQ", int(f[1]), int(f[2]), float(f[3])))
             elif k == "RPL":
